@@ -92,6 +92,7 @@ type depScenario struct {
 	Names    []string   `json:"names"`
 	Dep      aDep       `json:"dep"`
 	Sets     []aDSet    `json:"sets"`
+	Foreign  []aDSet    `json:"foreign,omitempty"` // like-labelled ObjectSets of another namespace (ns2): never this deployment's
 	Store    []aObj     `json:"store"`
 	Slices   []aDSlice  `json:"slices,omitempty"` // ObjectSlices of the deployment's namespace
 	NextRV   int64      `json:"next_rv"`
@@ -134,6 +135,7 @@ type depEvent struct {
 	Sel    bool     `json:"sel,omitempty"`
 	Ctrl   int      `json:"ctrl,omitempty"`
 	Status *aDep    `json:"status,omitempty"`
+	OtherNS bool    `json:"otherns,omitempty"` // the request names an ObjectSet outside the deployment's namespace
 }
 
 type depStepObs struct {
@@ -143,6 +145,7 @@ type depStepObs struct {
 	Requests []string   `json:"requests,omitempty"`
 	Dep      aDep       `json:"dep"`
 	Sets     []aDSet    `json:"sets"`
+	Foreign  []aDSet    `json:"foreign,omitempty"`
 	Post     []aObj     `json:"post"`
 	NextRV   int64      `json:"next_rv"`
 	NextUID  int64      `json:"next_uid"`
@@ -465,10 +468,15 @@ func (c *depCtx) abstractDSet(m map[string]any) (aDSet, error) {
 	return a, nil
 }
 
-func (c *depCtx) abstractDSets(s *Store) []aDSet {
+func (c *depCtx) abstractDSets(s *Store) []aDSet { return c.abstractDSetsNS(s, false) }
+
+func (c *depCtx) abstractDSetsNS(s *Store, foreign bool) []aDSet {
 	out := []aDSet{}
 	for _, k := range s.RawKeys() {
 		if k.Group != corev1alpha1.GroupVersion.Group || (k.Kind != "ObjectSet" && k.Kind != "ClusterObjectSet") {
+			continue
+		}
+		if (k.Namespace != c.ns) != foreign {
 			continue
 		}
 		a, err := c.abstractDSet(s.RawGet(k))
@@ -554,7 +562,7 @@ func (c *depCtx) eventsFromLog(rc *recClient, log []*Request) []depEvent {
 		}
 		switch {
 		case isSet(r.Key) && (r.Verb == "create" || r.Verb == "update"):
-			e := depEvent{Kind: r.Verb, Name: c.rankOfName(r.Key.Name), Res: resOf(r)}
+			e := depEvent{Kind: r.Verb, Name: c.rankOfName(r.Key.Name), Res: resOf(r), OtherNS: r.Key.Namespace != c.ns}
 			sent := rc.sent[r.Idx]
 			if sent == nil {
 				e.Kind = "other:" + r.Verb + " without sent object"
@@ -576,7 +584,7 @@ func (c *depCtx) eventsFromLog(rc *recClient, log []*Request) []depEvent {
 			}
 			out = append(out, e)
 		case isSet(r.Key) && r.Verb == "delete":
-			out = append(out, depEvent{Kind: "delete", Name: c.rankOfName(r.Key.Name), Res: resOf(r)})
+			out = append(out, depEvent{Kind: "delete", Name: c.rankOfName(r.Key.Name), Res: resOf(r), OtherNS: r.Key.Namespace != c.ns})
 		case r.Key == c.depKey() && r.Verb == "status-update":
 			e := depEvent{Kind: "status", Res: resOf(r)}
 			if r.Sent != nil {
@@ -599,6 +607,9 @@ func (c *depCtx) snapshot(s *Store, o *depStepObs) {
 	}
 	o.Dep = d
 	o.Sets = c.abstractDSets(s)
+	if f := c.abstractDSetsNS(s, true); len(f) > 0 {
+		o.Foreign = f
+	}
 	o.Post = c.abstractStore(s)
 	o.NextRV, o.NextUID = s.Counters()
 }
@@ -672,6 +683,15 @@ func init() {
 				a.Kind = 2
 			}
 			a.NS = sc.Dep.NS
+			m, err := c.concreteSet(a)
+			if err != nil {
+				return nil, err
+			}
+			s.RawPut(m, false)
+		}
+		for _, a := range sc.Foreign {
+			a.Kind = 1
+			a.NS = 2
 			m, err := c.concreteSet(a)
 			if err != nil {
 				return nil, err
